@@ -133,15 +133,9 @@ package turn
 
 //@      // ---- C18: lock discipline of the remaining lock-taking functions of this package (`lockonly`: only lock
 //@      // balance / unlock-of-held / no-self-deadlock / lock order obligations are generated for these bodies)
-//@ func (*Client).Close
-//@   lockonly
 //@ func (*Client).getReservationToken
 //@   lockonly
 //@ func (*Client).getTCPAllocation
-//@   lockonly
-//@ func (*Client).handleSTUNMessage
-//@   lockonly
-//@ func (*Client).onRtxTimeout
 //@   lockonly
 //@ func (*Client).relayedUDPConn
 //@   lockonly
@@ -151,3 +145,39 @@ package turn
 //@   lockonly
 //@ func (*Client).setTCPAllocation
 //@   lockonly
+
+// ---- C12: client transactions (client.go). The transaction table c.trMap is only changed under c.mutexTrMap on the
+// completion paths; a transaction is completed (WriteResult) only by the execution that found it in the table under
+// c.mutexTrMap and removed it there, so at most one completion is ever written, and none after Close emptied the table.
+
+//@ spec func clientReady(c *Client) bool = c != nil && c.trMap != nil && trMapWF(c.trMap) && c.conn != nil && c.log != nil && !held(c.mutexTrMap) && !held(c.trMap.mutex) && !rheld(c.trMap.mutex)
+
+//@ func (*Client).onRtxTimeout
+//@   requires clientReady(c)
+//@   at-call invoke net.PacketConn.WriteTo assert [C12:at-most-seven-sends] nRtx != 7 && has(c.trMap.trMap, trKey) && sameSlice(arg0, c.trMap.trMap[trKey].Raw) && arg1 == c.trMap.trMap[trKey].To
+//@   at-call (*Transaction).WriteResult assert [C12:complete-claimed-only] old(has(c.trMap.trMap, trKey)) && recv == old(c.trMap.trMap[trKey]) && !has(c.trMap.trMap, trKey) && held(c.mutexTrMap)
+//@   at-call (*Transaction).WriteResult assert [C12:failure-result] arg0.Err != nil && arg0.Msg == nil
+//@   at-call (*Transaction).StartRtxTimer assert [C12:rearm-pending-only] nRtx != 7 && has(c.trMap.trMap, trKey) && recv == c.trMap.trMap[trKey]
+//@   ensures [C12:gives-up-at-seven] nRtx == 7 ==> !has(c.trMap.trMap, trKey)
+//@   ensures [C12:others-untouched] forall k :: k != trKey ==> haskey(c.trMap.trMap, k) == old(haskey(c.trMap.trMap, k)) && valat(c.trMap.trMap, k) == old(valat(c.trMap.trMap, k))
+//@   ensures [C12:gone-is-noop] !old(has(c.trMap.trMap, trKey)) ==> !has(c.trMap.trMap, trKey) && forall x :: armed(x) == old(armed(x)) && dur(x) == old(dur(x))
+
+//@ func (*Client).handleSTUNMessage
+//@   requires clientReady(c) && !held(c.mutex) && !rheld(c.mutex) && (c.relayedConn != nil ==> c.relayedConn.log != nil) && (c.tcpAllocation != nil ==> c.tcpAllocation.log != nil)
+//@   at-call (*TransactionMap).Find assert [C12:lookup-under-lock] held(c.mutexTrMap) && arg0 == trKey
+//@   at-call (*TransactionMap).Delete assert [C12:claim-under-lock] held(c.mutexTrMap) && arg0 == trKey && has(c.trMap.trMap, trKey) && c.trMap.trMap[trKey] == tr
+//@   at-call (*Transaction).StopRtxTimer assert [C12:stop-own-timer] recv == tr && has(c.trMap.trMap, trKey) && c.trMap.trMap[trKey] == tr
+//@   at-call (*Transaction).WriteResult assert [C12:complete-claimed-only] recv == tr && !has(c.trMap.trMap, trKey) && !held(c.mutexTrMap)
+//@   at-call (*Transaction).WriteResult assert [C12:result-is-this-response] arg0.Msg == msg && arg0.From == from && arg0.Err == nil
+
+//@ func (*Client).PerformTransaction
+//@   requires clientReady(c) && msg != nil && 0 <= c.rto && c.rto < 4611686018427387904
+//@   at-call (*TransactionMap).Insert assert [C12:registered-before-send] arg0 == trKey && arg1 == tr && tr.nRtx == 0 && tr.interval == c.rto
+//@   at-call invoke net.PacketConn.WriteTo assert [C12:first-send] has(c.trMap.trMap, trKey) && arg1 == to && len(arg0) == len(msg.Raw) && (forall j :: 0 <= j && j < len(arg0) ==> arg0[j] == msg.Raw[j])
+//@   at-call (*Transaction).StartRtxTimer assert [C12:timer-after-send] recv == tr && has(c.trMap.trMap, trKey) && c.trMap.trMap[trKey] == tr
+//@   ensures [C12:nothing-left-on-write-error] ignoreResult && res1 != nil ==> forall k :: haskey(c.trMap.trMap, k) ==> old(haskey(c.trMap.trMap, k))
+
+//@ func (*Client).Close
+//@   requires clientReady(c)
+//@   ensures [C12:close-empties-table] forall k :: !haskey(c.trMap.trMap, k)
+//@   ensures [C12:close-completes-all] forall k :: old(haskey(c.trMap.trMap, k)) && old(valat(c.trMap.trMap, k)).resultCh != nil ==> closed(old(valat(c.trMap.trMap, k)).resultCh)
